@@ -530,3 +530,9 @@ def run(ctx) -> None:
     c18.hit_test_rule(ctx, an, "C03.R3")
     rule_r4(ctx, an)
     rule_r5(ctx, an)
+    # the conflict checks look at the context's OWN tables: they see every inherited factory /
+    # resource only because the tables are complete snapshots and lookups never consult another
+    # context (C02.R1 / C02.R3)
+    from .common import include_rules
+
+    include_rules(ctx, "c02", "C03.R4", only=("C02.R1", "C02.R3"))
